@@ -31,7 +31,7 @@ def run(rep):
             broken.append({"obligation": "harness:psearch", "detail": res["err"]})
         rep.coverage.update({
             "evaluations": res["n"], "distinct_nontrivial": res["accepted"],
-            "rule": "inputs as for C01; for every input that Parse accepts with a nil error (nesting <= 1000): no nil statement, reflection walk of all exported fields for typed-nil pointers in interface-typed fields and elements, "
+            "rule": "inputs as for C01 (corpus, mutants, grammar statements, literal substitution, exhaustive short sequences, nesting probes); for every input that Parse accepts with a nil error (nesting <= 1000): no nil statement, reflection walk of all exported fields for typed-nil pointers in interface-typed fields and elements, "
                     "json.Marshal of every statement, Explain of every statement and ExplainStatements non-empty and panic-free; distinct_nontrivial = accepted inputs",
             "samples": res["samples"], "input_distribution": res["dist"], "status_counts": res["counts"], "trusted_base": TRUSTED,
         })
